@@ -287,6 +287,34 @@ fn walk<P: HP, T: HV>(v: Option<TrieView<'_, P, T>>, fuel: u32) -> String {
     }
 }
 
+/// the arena skeleton read through the hook (no view, no iterator): `(len* L R)`, `.` for no child,
+/// `!` for a link that leaves the arena or reaches a slot twice
+fn skel(s: prefix_trie::map::VerifSnapshot) -> String {
+    fn go(s: &prefix_trie::map::VerifSnapshot, i: usize, seen: &mut Vec<bool>, out: &mut String) {
+        if i >= s.slots.len() || seen[i] {
+            out.push('!');
+            return;
+        }
+        seen[i] = true;
+        let (l, r, v, len) = s.slots[i];
+        out.push_str(&format!("({}{} ", len, if v { "*" } else { "-" }));
+        match l {
+            Some(l) => go(s, l, seen, out),
+            None => out.push('.'),
+        }
+        out.push(' ');
+        match r {
+            Some(r) => go(s, r, seen, out),
+            None => out.push('.'),
+        }
+        out.push(')');
+    }
+    let mut seen = vec![false; s.slots.len()];
+    let mut out = String::new();
+    go(&s, 0, &mut seen, &mut out);
+    out
+}
+
 fn snap(s: prefix_trie::map::VerifSnapshot) -> String {
     let n = s.arena_len;
     let mut seen = vec![false; n];
@@ -852,6 +880,14 @@ fn map_op<P: HP>(m: &mut PrefixMap<P, i64>, op: &str, a: &[&str]) -> String {
             }
         }
         ("get_key_value", [q]) => fopt(m.get_key_value(&p!(q)), |(p, v)| fpv(p, v)),
+        // state probe that does not go through any iterator: exact-match lookups of a list of keys
+        ("gkvs", qs) => {
+            let mut out = Vec::new();
+            for q in qs.iter() {
+                out.push(fopt(m.get_key_value(&p!(q)), |(p, v)| fpv(p, v)));
+            }
+            out.join(" ")
+        }
         ("contains_key", [q]) => fb(m.contains_key(&p!(q))),
         ("get_lpm", [q]) => fopt(m.get_lpm(&p!(q)), |(p, v)| fpv(p, v)),
         ("get_lpm_prefix", [q]) => fopt(m.get_lpm_prefix(&p!(q)), |p| fp(p)),
@@ -1076,6 +1112,7 @@ fn map_op<P: HP>(m: &mut PrefixMap<P, i64>, op: &str, a: &[&str]) -> String {
         }
         ("serde", []) => P::serde_map(m),
         ("snap", []) => snap(m.verif_snapshot()),
+        ("skel", []) => skel(m.verif_snapshot()),
         _ => "bad-op".into(),
     }
 }
@@ -1096,6 +1133,13 @@ fn set_op<P: HP>(s: &mut PrefixSet<P>, op: &str, a: &[&str]) -> String {
         ("contains_key", [q]) => fb(s.contains(&p!(q))),
         ("get", [q]) => unit(s.contains(&p!(q))),
         ("get_key_value", [q]) => fopt(s.get(&p!(q)), |p| fpv(p, &())),
+        ("gkvs", qs) => {
+            let mut out = Vec::new();
+            for q in qs.iter() {
+                out.push(fopt(s.get(&p!(q)), |p| fpv(p, &())));
+            }
+            out.join(" ")
+        }
         ("get_lpm", [q]) => fopt(s.get_lpm(&p!(q)), |p| fpv(p, &())),
         ("get_lpm_prefix", [q]) => fopt(s.get_lpm(&p!(q)), |p| fp(p)),
         ("get_spm_prefix", [q]) => fopt(s.get_spm(&p!(q)), |p| fp(p)),
@@ -1226,6 +1270,7 @@ fn set_op<P: HP>(s: &mut PrefixSet<P>, op: &str, a: &[&str]) -> String {
         }
         ("serde", []) => P::serde_set(s),
         ("snap", []) => snap(s.verif_snapshot()),
+        ("skel", []) => skel(s.verif_snapshot()),
         _ => "bad-op".into(),
     }
 }
